@@ -253,7 +253,7 @@ func snapsimPhases(tier string) map[string]phase {
 	}
 	m := map[string]phase{}
 	m["explore"] = phase{Name: "explore", Build: "snapsim", TestRun: "^TestVerifSnapsim$", Engine: "snapsim", Mode: "explore",
-		BudgetS: sel(30, 600), Workers: 16, Samples: 3}
+		BudgetS: sel(40, 600), Workers: 16, Samples: 3}
 	per := uint64(1500)
 	if !q {
 		per = 40000
